@@ -39,7 +39,9 @@ func vh_C09_space() {
 	})
 	w1 := vC09Wrappers[vChoice("outer", len(vC09Wrappers))]
 	w2 := vC09Wrappers[vChoice("inner", len(vC09Wrappers))]
-	core := `(cond (<= n 0) acc (f (- n 1) (+ acc n)))`
+	// the self call in the default arm, or in a predicate-guarded arm
+	core := []string{`(cond (<= n 0) acc (f (- n 1) (+ acc n)))`, `(cond (> n 0) (f (- n 1) (+ acc n)) acc)`,
+		`(cond (< n 0) 0 (> n 0) (f (- n 1) (+ acc n)) acc)`}[vChoice("core", 3)]
 	body := vReplace(w1, "E", vReplace(w2, "E", core))
 	n := vInt64("n")
 	vAssume(n >= 3)
@@ -59,6 +61,7 @@ func vh_C09_space() {
 	if len(samples) < 4 {
 		return
 	}
+	vC04AtRest(env, "space-after-run")
 	vAssert(samples[1] == samples[2], "space-trip-preserves-depths")
 	vAssert(samples[2] == samples[3], "space-next-trip-preserves-depths")
 	vAssert(samples[0].calls == samples[1].calls && samples[0].scopes == samples[1].scopes && samples[0].data == samples[1].data, "space-first-trip-preserves-depths")
@@ -75,7 +78,7 @@ func vh_C09_invisible() {
 	env := vEvalEnv(0)
 	w1 := vC09Wrappers[vChoice("outer", len(vC09Wrappers))]
 	w2 := vC09Wrappers[vChoice("inner", len(vC09Wrappers))]
-	core := `(cond (<= n 0) acc (f (- n 1) (+ acc (t n))))`
+	core := []string{`(cond (<= n 0) acc (f (- n 1) (+ acc (t n))))`, `(cond (> n 0) (f (- n 1) (+ acc (t n))) acc)`}[vChoice("core", 2)]
 	body := vReplace(w1, "E", vReplace(w2, "E", core))
 	n := vInt64("n")
 	vAssume(n >= 0 && n <= 3)
